@@ -35,8 +35,16 @@ def pysel(ast):
     raise ValueError(k)
 
 
+def pyidx(x):
+    if x["k"] == "at":
+        return x["i"]
+    return slice(None if x["lo"] < 0 else x["lo"], None if x["hi"] < 0 else x["hi"], x["st"] or None)
+
+
 def form_of(ast):
     k = ast["k"]
+    if k == "sub":
+        return f"narrowed({ast['a']['k']},{ast['b']['k']})"
     if k == "pair":
         return f"pair({ast['a']['k']},{ast['b']['k']})"
     return k
@@ -96,9 +104,9 @@ def main(argv):
         n += 1
         sel, den = ev["sel"], ev["den"]
         key = {"form": form_of(sel), "labels": labels}
-        py = pysel(sel)
+        py = pysel(sel) if sel["k"] != "sub" else (pysel(sel["base"]), (pyidx(sel["a"]), pyidx(sel["b"])))
         try:
-            arr = plate[py].get()
+            arr = plate[py].get() if sel["k"] != "sub" else plate[py[0]][py[1]].get()
             got = [c.name for c in arr.flatten()]
             shape = list(arr.shape)
             exc = None
